@@ -115,7 +115,11 @@ pub fn render(s: &TypeSpec) -> Option<Rendered> {
 }
 
 pub fn run(ctx: &Ctx) -> i32 {
-    let b = Behaviour {
+    crate::props::behave::run(ctx, &behaviour())
+}
+
+pub fn behaviour() -> Behaviour {
+    Behaviour {
         prop: "C03",
         rule: "structs and enum variants with up to 5 fields, PartialOrd alone / Ord alone / both, field attributes carried by Ord(..) or PartialOrd(..), \
                ignore/method/rank in every spelling (negative, string, parenthesised; injective ranks incl. 0, -1, isize::MAX), NaN-like field types; \
@@ -130,6 +134,5 @@ pub fn run(ctx: &Ctx) -> i32 {
         thorough: 8000,
         batch: 25,
         assumptions: &["m_cmp_rev / m_pcmp_rev reverse the order so swapped arguments are visible; m_pcmp_none and Inc/f32 produce None"],
-    };
-    crate::props::behave::run(ctx, &b)
+    }
 }
